@@ -15,6 +15,10 @@
 //	    LoadAll) x engine configuration x whether the templates it includes / extends / imports are
 //	    themselves compiled or source x template name. The twin must render exactly like an engine
 //	    that was given the source, on three contexts: same bytes, or an error in both.
+//
+// Two history families: hist.go (sequences of serialisations, all results held) and save.go
+// (sequences of CompiledLoader.SaveCompiled of one name into one directory with a changing source
+// and every relation between the template's and the file's modification time).
 package main
 
 import (
@@ -539,20 +543,21 @@ func runRD(t *vlib.T) {
 func main() {
 	vlib.Main(vlib.Spec{
 		ID: "C16", Level: "exploration",
-		Rule: "bounded-exhaustive: (rt) the full product of 15 names x 19 sources x 7 LastModified x 4 CompileTime x 5 AST sections (lengths 0, 1, 255, 256, 257, 4096, 4097, 65535, 65536, 65537, 70000, 1 MiB, thorough also 2^24-1, 2^24, 2^24+1, 64 MiB; all 256 byte values, NUL, non-UTF-8, '/', data that looks like a serialisation) through Serialize -> Deserialize with a second value serialised in between; (rd) every corpus source (spaced and tight) and every single-lexeme mutation of it x 5 engine configurations x 5 ways of loading the compiled form x included templates source/compiled x 3 names, rendered on 3 contexts and compared with an engine given the source. Non-trivial = rt: name or source non-empty; rd: the source parses and at least one of the three reference renders succeeds (so output bytes are compared, not just error-ness)",
+		Rule: "bounded-exhaustive: (rt) the full product of 15 names x 19 sources x 7 LastModified x 4 CompileTime x 5 AST sections (lengths 0, 1, 255, 256, 257, 4096, 4097, 65535, 65536, 65537, 70000, 1 MiB, thorough also 2^24-1, 2^24, 2^24+1, 64 MiB; all 256 byte values, NUL, non-UTF-8, '/', data that looks like a serialisation) through Serialize -> Deserialize with a second value serialised in between; (rd) every corpus source (spaced and tight) and every single-lexeme mutation of it x 5 engine configurations x 5 ways of loading the compiled form x included templates source/compiled x 3 names, rendered on 3 contexts and compared with an engine given the source; (hist) every sequence of 2-4 (thorough 5) serialisations over 8 sizes with all results held; (sv) every history of 2 or 3 different versions of one template name (4 sources, neighbours differ) saved by CompiledLoader.SaveCompiled into ONE directory x 3 ways the first version reaches the engine x 14 ways per later version (RegisterString again / new engine with a time-reporting loader / loader without times; template modification time older, equal, newer than the existing file's or zero; file left as written or moved in time with os.Chtimes) x 2 names (quick: 3-version histories under one name) - after every save the file, CompiledLoader.Load and two fresh engines on the directory must give the version saved last. Non-trivial = rt: name or source non-empty; rd: the source parses and at least one of the three reference renders succeeds (so output bytes are compared, not just error-ness); hist and sv: every case (each holds >= 2 results / overwrites a file at least once)",
 		Assumptions: []string{
 			"sources and names of 4 GiB and more (beyond the 32-bit length prefix) are not explored",
 			"the error TEXT of a failing render / registration is not compared, only that both sides fail",
 			"registration on an engine whose cache is switched off is a no-op for source and compiled templates alike and is left out (C15 treats it as unspecified)",
 			"names with a path separator are saved by the compiled loader only into an existing sub-directory (the check creates it); saving into a missing one returns an error and writes no file, which the statement does not cover",
 			"CompileTime of a file written by CompiledLoader.SaveCompiled is the wall clock and is not compared",
+			"save histories: an unchanged source saved twice, an engine with auto-reload whose loader changes under it (what the engine holds then is C15's subject) and concurrent saves are not generated; modification times are steered with os.Chtimes and harness loaders, never by waiting",
 		},
 		QuickDeadline: 150, ThoroughDeadline: 840,
 		Run: func(t *vlib.T) {
 			runRD(t)
-			runSave(t)
 			runRT(t)
 			runHist(t)
+			runSave(t)
 		},
 	})
 }
